@@ -115,7 +115,11 @@ impl MemberFunction {
 
 impl Dependencies for MemberFunction {
     fn dependencies(&self) -> Vec<crate::ast::Dependency> {
-        self.body.net_dependencies()
+        self.body
+            .net_dependencies()
+            .into_iter()
+            .map(crate::ast::Dependency::cross_function)
+            .collect()
     }
 
     fn supplies(&self) -> Vec<crate::ast::Dependency> {
